@@ -17,6 +17,7 @@ func zzC12Context() []parser.K8sObject {
 	return []parser.K8sObject{
 		zzNsObj("ns1", map[string]string{"env": "prod"}),
 		zzDeployObj("ns1", "a", map[string]string{"app": "a"}, []corev1.ContainerPort{{Name: "http", ContainerPort: 8080}}),
+		zzDeployObj("ns1", "b", map[string]string{"app": "b"}, nil), // a second workload: rule peers are only evaluated between workloads
 		zzNetpolObj("ns1", "np", netv1.NetworkPolicySpec{
 			PodSelector: metav1.LabelSelector{MatchLabels: map[string]string{"app": "a"}},
 			Ingress:     []netv1.NetworkPolicyIngressRule{{From: []netv1.NetworkPolicyPeer{{PodSelector: &metav1.LabelSelector{}}}}},
@@ -106,6 +107,31 @@ func ZZ_C12_AdminNetworkPolicy() {
 	o := &apisv1a.AdminNetworkPolicy{}
 	vf_Any("anp", o, zzPools())
 	zzC12Run(append(zzC12Context(), parser.K8sObject{Kind: parser.AdminNetworkPolicy, AdminNetworkPolicy: o}))
+}
+
+// admin policies whose subject is well formed and selects every workload, with unconstrained rules: the mutations
+// budget is spent inside the rules (peers with neither / both fields, ports with several / no alternatives, ...)
+func ZZ_C12_AdminNetworkPolicyRules() {
+	o := &apisv1a.AdminNetworkPolicy{ObjectMeta: metav1.ObjectMeta{Name: "anp"}}
+	o.Spec.Priority = 5
+	o.Spec.Subject = apisv1a.AdminNetworkPolicySubject{Namespaces: &metav1.LabelSelector{}}
+	if vf_Choose("dir", 2) == 0 {
+		vf_Any("anp.ingress", &o.Spec.Ingress, zzPools())
+	} else {
+		vf_Any("anp.egress", &o.Spec.Egress, zzPools())
+	}
+	zzC12Run(append(zzC12Context(), parser.K8sObject{Kind: parser.AdminNetworkPolicy, AdminNetworkPolicy: o}))
+}
+
+func ZZ_C12_BaselineAdminNetworkPolicyRules() {
+	o := &apisv1a.BaselineAdminNetworkPolicy{ObjectMeta: metav1.ObjectMeta{Name: "default"}}
+	o.Spec.Subject = apisv1a.AdminNetworkPolicySubject{Namespaces: &metav1.LabelSelector{}}
+	if vf_Choose("dir", 2) == 0 {
+		vf_Any("banp.ingress", &o.Spec.Ingress, zzPools())
+	} else {
+		vf_Any("banp.egress", &o.Spec.Egress, zzPools())
+	}
+	zzC12Run(append(zzC12Context(), parser.K8sObject{Kind: parser.BaselineAdminNetworkPolicy, BaselineAdminNetworkPolicy: o}))
 }
 
 func ZZ_C12_BaselineAdminNetworkPolicy() {
